@@ -45,6 +45,8 @@ def make_plans(rng, steps, n_random=2):
     born = created_at(steps)
     plans = []
     read_ops = prog.FLOAT_READS if steps[0].get("dtype", "int64") == "float64" else prog.READ_OPS
+    if steps[0].get("via") == "unsafe":
+        read_ops = [o for o in read_ops if o not in ("elem_oob", "badadd")]
 
     def one_read(si):
         vs = [v for v, b in born.items() if b <= si]
@@ -369,6 +371,23 @@ def directed():
         steps = [{"op": "init", "v": "a0", "rows": F, "dtype": "float64"}, {"op": "neg", "v": "a1", "u": "a0"}, {"op": "ufcol", "v": "a2", "u": "a1", "col": col, "side": "R"},
                  {"op": "ufcol", "v": "a3", "u": "a0", "col": col, "side": "L"}, {"op": "obs", "u": "a2", "what": "tolist", "arg": None}, {"op": "obs", "u": "a3", "what": "tolist", "arg": None}]
         yield {"steps": steps, "hazard": False, "plans": [{"kind": "everything", "reads": {"0": [["a0", rd, None]], "1": [["a1", rd, None]]}}, {"kind": "random", "reads": {"1": [["a1", rd, None]]}}]}
+    # an array built with safe_mode=False combined (as either operand) with a same-sized array of other row lengths: whatever the outcome,
+    # the OTHER array is only looked at
+    for rows_ in ([[1, 2], [3], [4, 5, 6]], [[1], [2], [3]], [[7, 8, 9], [1, 2, 3]]):
+        for a_ in ([0, 1, True], [0, 1, False], [len(rows_) - 1, 0, True]):
+            steps = [{"op": "init", "v": "a0", "rows": rows_, "via": "unsafe"}, {"op": "obs", "u": "a0", "what": "partnerpurity", "arg": a_},
+                     {"op": "ufs", "v": "a1", "u": "a0", "c": 2, "uf": "multiply", "side": "R"}, {"op": "obs", "u": "a1", "what": "partnerpurity", "arg": a_}, {"op": "obs", "u": "a0", "what": "tolist", "arg": None}]
+            yield {"steps": steps, "hazard": False, "plans": [{"kind": "everything", "reads": {"0": [["a0", "partnerpurity", a_]], "2": [["a1", "sum1", None]]}}, {"kind": "random", "reads": {"1": [["a0", "meta", None]]}}]}
+    for rows_ in ([[1, 2], [3], [4, 5, 6]], [[1], [2], [3], [4]], [[7, 8, 9], [1, 2, 3]], [[5, 6], [], [7]]):
+        for via_ in ("unsafe", None):
+            for order in ("uw", "wu"):
+                mv = [0, len(rows_) - 1]
+                init = {"op": "init", "v": "a0", "rows": rows_}
+                if via_:
+                    init["via"] = via_
+                steps = [init, {"op": "partner", "v": "a1", "u": "a0", "move": mv}, {"op": "cmp2", "u": "a0" if order == "uw" else "a1", "w": "a1" if order == "uw" else "a0"},
+                         {"op": "obs", "u": "a1", "what": "tolist", "arg": None}, {"op": "obs", "u": "a0", "what": "sum1", "arg": None}]
+                yield {"steps": steps, "hazard": False, "plans": [{"kind": "everything", "reads": {"1": [["a1", "meta", None]], "2": [["a1", "sum1", None]]}}, {"kind": "random", "reads": {"0": [["a0", "tolist", None]]}}]}
     # index arrays handed to a read are the caller's: negative entries must still be negative afterwards
     for rows_ in (np.array([-1, 0, -2]), np.array([-3, -3], dtype=np.int32), np.array([2, -1])):
         steps = [{"op": "init", "v": "a0", "rows": [[1, 2], [3, 4, 5], [6, 7]]}, {"op": "obs", "u": "a0", "what": "rowscol", "arg": [rows_.copy(), 1]},
